@@ -162,11 +162,21 @@ def gen_script(rng, snaps, market_id, name, params=None, ref_prefix=""):
     return actions
 
 
-def gen_case(seed, idx, market_params=None, script_params=None, n_markets=(1, 1), n_strategies=(1, 1), client=None, config=None, limits=None, salt=0, event_processing=False):
+def gen_case(seed, idx, market_params=None, script_params=None, n_markets=(1, 1), n_strategies=(1, 1), client=None, config=None, limits=None, salt=0, event_processing=False, recorded=False):
     rng = mk_rng(seed, idx, salt)
     markets = []
     snaps_by_market = {}
     nm = rng.randint(*n_markets)
+    if recorded:
+        # G-mut: the recorded greyhound WIN / PLACE pair (real ladders) with hostile events spliced in
+        import json as _json
+        from . import env
+
+        for mid in G.RECORDED[: max(1, min(nm, 2))]:
+            lines = G.mutate_recording(G.load_recording(env.REPO_ROOT, mid), rng)
+            markets.append({"id": mid, "text": "\n".join(_json.dumps(l, separators=(",", ":")) for l in lines) + "\n"})
+            snaps_by_market[mid] = G.read_lines(lines)
+        nm = 0
     for m in range(nm):
         mid = "1.2%08d" % (rng.randint(0, 9999) * 10 + m)
         d = G.Director(rng, mid, market_params, t0=G.T0 + (0 if event_processing else m * 3_600_000))
